@@ -187,8 +187,18 @@ def Sweeper.markPublished (s : Sweeper) (ids : List Nat) (rate : Int) : Sweeper 
         { i with state := .published, lastRate := rate }
       else i }
 
-/-- `markInputsPublishFailed(set, feeRate)`. -/
+/-- `markInputsPublishFailed(set, feeRate)` (since repair e6d6149): the new starting rate is the
+    larger of the rate already recorded for the input and the rate the failed sweep reports (a
+    failure may report none: 0). -/
 def Sweeper.markFailed (s : Sweeper) (ids : List Nat) (rate : Int) : Sweeper :=
+  { s with inputs := s.inputs.map fun i =>
+      if ids.contains i.p.idx && (i.state == .pendingPublish || i.state == .published) then
+        { i with state := .publishFailed, p := { i.p with start := some (max rate (i.p.start.getD 0)) } }
+      else i }
+
+/-- the behaviour BEFORE repair e6d6149 (kept as a variant, not used by `step`): the reported rate
+    overwrites the recorded one. -/
+def Sweeper.markFailedOverwrite (s : Sweeper) (ids : List Nat) (rate : Int) : Sweeper :=
   { s with inputs := s.inputs.map fun i =>
       if ids.contains i.p.idx && (i.state == .pendingPublish || i.state == .published) then
         { i with state := .publishFailed, p := { i.p with start := some rate } }
